@@ -124,6 +124,7 @@ def run(ctx, replay_ops=None):
     model = ctx.read_lines(modelf) if os.path.exists(modelf) else []
     dist = ctx.cov["distribution"]
     hits = 0
+    perkey = {}
     trivial = 0
     mx = {"cost": 0, "steps": 0, "maxstack": 0, "maxbytes": 0}
     for i, (op, r, m) in enumerate(zip(ops, impl, mon)):
@@ -146,12 +147,20 @@ def run(ctx, replay_ops=None):
                 dist["eval lines outside the modelled family (model SKIP)"] = dist.get("eval lines outside the modelled family (model SKIP)", 0) + 1
         hit = monitor(op, r, m)
         if hit:
-            if hits < 4:
+            # a recovered panic is keyed by the function that raised it (known findings are matched on that)
+            key = None
+            if "PANIC-recovered" in r and " at " in m:
+                key = {"panic_in": m.rsplit(" at ", 1)[1].strip()}
+            kk = key["panic_in"] if key else ""
+            perkey[kk] = perkey.get(kk, 0) + 1
+            if perkey[kk] <= 3 and len(perkey) <= 6:
+                # (a known finding with status "known" is printed as KNOWN-FINDING by the framework instead)
                 ctx.violation("monitor: " + hit, {"kind": "monitor", "ops": [op], "impl_out": r, "detail": m, "harness": h},
-                              found_input=True)
+                              found_input=True, match_key=key)
             hits += 1
-    if hits > 4:
-        ctx.notes.append("%d further monitor hits suppressed" % (hits - 4))
+    shown = sum(min(n, 3) for n in perkey.values())
+    if hits > shown:
+        ctx.notes.append("%d further monitor hits suppressed" % (hits - shown))
     ctx.cov["distinct_nontrivial"] = max(0, ctx.cov["distinct_nontrivial"] - trivial)
     ctx.cov["observed_maxima"] = mx
 
